@@ -68,7 +68,9 @@ func (s *respScript) Kinds() string {
 var errInjected = errors.New("verif: injected callback failure")
 
 func genEventsBlock(rng *rand.Rand, rows int, signed bool) *ref.Block {
-	u32 := func() ref.Val { return ref.Leaf([]byte{byte(rng.Intn(256)), byte(rng.Intn(256)), byte(rng.Intn(256)), byte(rng.Intn(100))}) }
+	u32 := func() ref.Val {
+		return ref.Leaf([]byte{byte(rng.Intn(256)), byte(rng.Intn(256)), byte(rng.Intn(256)), byte(rng.Intn(100))})
+	}
 	u64 := func() ref.Val {
 		b := make([]byte, 8)
 		rng.Read(b)
@@ -524,7 +526,9 @@ func runResponse(s *respScript, seg func(avail, want int) int) *execResult {
 	return res
 }
 
-func leU32(x uint32) string { return fmt.Sprintf("%02x%02x%02x%02x", byte(x), byte(x>>8), byte(x>>16), byte(x>>24)) }
+func leU32(x uint32) string {
+	return fmt.Sprintf("%02x%02x%02x%02x", byte(x), byte(x>>8), byte(x>>16), byte(x>>24))
+}
 func leU64(x uint64) string { return leU32(uint32(x)) + leU32(uint32(x>>32)) }
 
 // eventsFingerprint must equal blockFingerprint of the events block: rebuild the columns.
